@@ -72,8 +72,12 @@ func (s *Service) Attest(ctx context.Context, duty *attester.Duty) ([]*phase0.At
 
 	// Set the per-validator information.
 	validatorIndexToArrayIndexMap := make(map[phase0.ValidatorIndex]int)
-	for i, index := range validatorIndices {
-		validatorIndexToArrayIndexMap[index] = i
+	// The duty's arrays are not filtered, so the positions are those in the duty itself, not those in
+	// the filtered list of validators (a validator listed twice keeps its first entry).
+	for i, index := range duty.ValidatorIndices() {
+		if _, exists := validatorIndexToArrayIndexMap[index]; !exists {
+			validatorIndexToArrayIndexMap[index] = i
+		}
 	}
 	committeeIndices := make([]phase0.CommitteeIndex, len(validatingAccounts))
 	validatorCommitteeIndices := make([]phase0.ValidatorIndex, len(validatingAccounts))
